@@ -481,9 +481,9 @@ func cmdCheck(args []string) int {
 				// z3 4.8.12 answers "unknown" on many div/mod-by-constant integer queries that
 				// z3 5.1.0 decides in milliseconds (probed on the timestamp codec); bit-vector
 				// queries go to the system z3
-				defSolver := "z3"
-				if cfg.Arith == "int" {
-					defSolver = "z3-new"
+				defSolver := "z3-new" // also faster and more often decisive on the bit-vector queries (measured on C23/C36/C37)
+				if s := os.Getenv("VERIF_SOLVER"); s != "" {
+					defSolver = s
 				}
 				cfg.Solver = firstNonEmpty(es.Solver, u.Solver, defSolver)
 				solversUsed[map[string]string{"z3": "z3 4.8.12 (/usr/bin/z3 -in)", "z3-new": "z3 5.1.0 (z3-new -in)", "cvc5": "cvc5 1.0 (--incremental)"}[cfg.Solver]] = true
